@@ -254,10 +254,130 @@ fn mini_storm<F: Function + MathFunction + Clone + 'static>(name: &str) {
     println!("{name} mini storm: ok");
 }
 
+/// First use through the shape-level API: every thread wraps its handle of a
+/// freshly built, never used function in a `Shape`, builds its own four
+/// shape tapes and evaluates them with shape-level evaluators (the route the
+/// renderers and the mesher take).  The solo results come from an
+/// independent instance of the function.
+fn shape_scenario<F: Function + MathFunction + Clone + 'static>(name: &str) {
+    use fidget_core::shape::{EzShape, Shape};
+    fn shape_work<F: Function + MathFunction + Clone>(
+        f: &F,
+        pts: &[[f32; 3]],
+    ) -> Vec<Vec<u32>> {
+        let s = Shape::<F>::new_raw(f.clone());
+        let mut out = vec![];
+        let pt = s.ez_point_tape();
+        let mut pe = Shape::<F>::new_point_eval();
+        out.push(
+            pts.iter()
+                .map(|p| pe.eval(&pt, p[0], p[1], p[2]).unwrap().0.to_bits())
+                .collect(),
+        );
+        let it = s.ez_interval_tape();
+        let mut ie = Shape::<F>::new_interval_eval();
+        let mut iv = vec![];
+        for p in pts {
+            let (o, _) = ie
+                .eval(
+                    &it,
+                    Interval::new(p[0], p[0] + 0.3),
+                    Interval::new(p[1], p[1] + 0.3),
+                    Interval::new(p[2], p[2] + 0.3),
+                )
+                .unwrap();
+            iv.push(o.lower().to_bits());
+            iv.push(o.upper().to_bits());
+        }
+        out.push(iv);
+        let xs: Vec<f32> = pts.iter().map(|p| p[0]).collect();
+        let ys: Vec<f32> = pts.iter().map(|p| p[1]).collect();
+        let zs: Vec<f32> = pts.iter().map(|p| p[2]).collect();
+        let ft = s.ez_float_slice_tape();
+        let mut fe = Shape::<F>::new_float_slice_eval();
+        out.push(
+            fe.eval(&ft, &xs, &ys, &zs)
+                .unwrap()
+                .iter()
+                .map(|v| v.to_bits())
+                .collect(),
+        );
+        let gt = s.ez_grad_slice_tape();
+        let mut ge = Shape::<F>::new_grad_slice_eval();
+        let g = |v: &[f32], k: usize| -> Vec<Grad> {
+            v.iter()
+                .map(|v| {
+                    let mut d = [0.0; 3];
+                    d[k] = 1.0;
+                    Grad::new(*v, d[0], d[1], d[2])
+                })
+                .collect()
+        };
+        out.push(
+            ge.eval(&gt, &g(&xs, 0), &g(&ys, 1), &g(&zs, 2))
+                .unwrap()
+                .iter()
+                .flat_map(|g| {
+                    [g.v.to_bits(), g.dx.to_bits(), g.dy.to_bits(), g.dz.to_bits()]
+                })
+                .collect(),
+        );
+        out
+    }
+    fn build1<F: MathFunction>() -> F {
+        // single output (shapes are single-output); the axes are first read
+        // at different depths of the expression
+        let mut ctx = Context::new();
+        let x = ctx.x();
+        let y = ctx.y();
+        let z = ctx.z();
+        let y2 = ctx.square(y).unwrap();
+        let a = ctx.add(y2, 0.25).unwrap();
+        let b = ctx.sqrt(a).unwrap();
+        let c = ctx.mul(b, z).unwrap();
+        let d = ctx.abs(c).unwrap();
+        let e = ctx.sub(d, 0.3).unwrap();
+        let m = ctx.min(e, y).unwrap();
+        let r = ctx.sub(m, x).unwrap();
+        F::new(&ctx, &[r]).unwrap()
+    }
+    let rounds = 3;
+    for round in 0..rounds {
+        let f_ref: F = build1();
+        let f: F = build1();
+        let threads = 3;
+        let solo: Vec<_> =
+            (0..threads).map(|t| shape_work(&f_ref, &inputs(t))).collect();
+        let solo = Arc::new(solo);
+        let hs: Vec<_> = (0..threads)
+            .map(|t| {
+                let f = f.clone();
+                let solo = solo.clone();
+                std::thread::spawn(move || {
+                    let got = shape_work(&f, &inputs(t));
+                    assert_eq!(
+                        got, solo[t],
+                        "round {round} thread {t}: shape-level results differ from the solo run"
+                    );
+                })
+            })
+            .collect();
+        drop(f);
+        for h in hs {
+            h.join().unwrap();
+        }
+    }
+    println!("{name} shapes: ok");
+}
+
 fn scenario<F: Function + MathFunction + Clone + 'static>(name: &str) {
+    // the solo results come from an independent instance, so that nothing
+    // computed lazily on first use is already in place on the shared one
+    let f_ref: F = build();
     let f: F = build();
     let threads = 3;
-    let solo: Vec<Solo> = (0..threads).map(|t| work(&f, &inputs(t))).collect();
+    let solo: Vec<Solo> =
+        (0..threads).map(|t| work(&f_ref, &inputs(t))).collect();
     let solo = Arc::new(solo);
     let token = CancelToken::new();
     let hs: Vec<_> = (0..threads)
@@ -429,6 +549,10 @@ fn main() {
         simplify_storm::<VmFunction>("vm255");
         return;
     }
+    if which == "shapes" {
+        shape_scenario::<VmFunction>("vm255");
+        return;
+    }
     if which == "mini" {
         mini_storm::<VmFunction>("vm255");
         return;
@@ -438,6 +562,8 @@ fn main() {
         simplify_storm::<VmFunction>("vm255");
         mini_storm::<VmFunction>("vm255");
         mini_storm::<GenericVmFunction<3>>("vm3");
+        shape_scenario::<VmFunction>("vm255");
+        shape_scenario::<GenericVmFunction<3>>("vm3");
         scenario::<GenericVmFunction<3>>("vm3");
     }
     if which != "tapes" {
